@@ -14,7 +14,13 @@ import DadiVerif.Model.LowPass
    lp_usesim thr pops             -> ok <nd 0/1>         use_sim_mat          (pops = cov@nseq@nsub@F;cov@nseq@nsub@F;…)
    lp_corrected thr pops model sims -> ok <nd>           output of lowpass_func (model = nd with masked entries 0,
                                                          sims = `-` | i.i.i=v,v,…;… one flattened sim_output per simulated index)
-   errors: err odd (odd haplotype number), err F (F = 1 or outside [0,1)), err size, err cov, err missing-sim -/
+   lp_projected pops model        -> ok <nd>             the plain projection of the model through projection_matrix (refAxesOf)
+   lp_deepbound pops              -> ok D,bound,eps,delta  deepDepth, deepBound and its two constants (C18_deep_coverage)
+   lp_projmix0 nseq nsub          -> ok row;row;…|maxdiff  Hardy–Weinberg mixture of individual-subsampling rows (limit of the F > 0 branch of
+                                                         projection_matrix at F = 0⁺) and its exact largest distance from the hypergeometric rows
+   lp_defined cov nseq nsub       -> ok a,b,c            nocallOk, hetErrOk, probEnoughOk as 0/1 (generated definedness conditions)
+   errors: err odd (odd haplotype number), err F (F = 1 or outside [0,1)), err size, err cov, err missing-sim,
+           err nan (a generated definedness condition fails: the code would evaluate 0 ** -1 or x / 0) -/
 namespace DadiVerif.Driver.LowPass
 open DadiVerif DadiVerif.Proto DadiVerif.LowPass
 
@@ -38,7 +44,10 @@ def popErr (p : Pop) : Option String :=
   else if p.nseq % 2 ≠ 0 ∨ p.nsub % 2 ≠ 0 then some "err odd"
   else if p.nsub > p.nseq ∨ p.nsub = 0 then some "err size"
   else if !okF p.F then some "err F"
+  else if !(nocallOk p.c p.nseq && hetErrOk p.c && probEnoughOk p.c p.nseq p.nsub) then some "err nan"
   else none
+
+def b2s (b : Bool) : String := if b then "1" else "0"
 
 def parseIdx (s : String) : Option (List Nat) := parseNatList s "."
 
@@ -73,19 +82,20 @@ def handle (toks : List String) : Option String :=
       else some ("ok " ++ showRows ((List.range (nseq + 1)).map (projRow nseq nsub F)))
   | ["lp_heterr", c] => do
       let c ← parseList c
-      if !okCov c then some "err cov" else some ("ok " ++ showRat (hetErr c))
+      if !okCov c then some "err cov" else if !hetErrOk c then some "err nan" else some ("ok " ++ showRat (hetErr c))
   | ["lp_callmat", c, nsub, F] => do
       let c ← parseList c; let nsub ← nsub.toNat?; let F ← parseRat F
-      if !okCov c then some "err cov" else if !okF F then some "err F" else
+      if !okCov c then some "err cov" else if !okF F then some "err F" else if !hetErrOk c then some "err nan" else
       let e := hetErr c
       some ("ok " ++ showRows ((List.range (nsub + 1)).map fun i => (List.range (nsub + 1)).map (callEntryE e nsub F i)))
   | ["lp_nocall", c, nseq, F] => do
       let c ← parseList c; let nseq ← nseq.toNat?; let F ← parseRat F
-      if !okCov c then some "err cov" else if !okF F then some "err F" else
+      if !okCov c then some "err cov" else if !okF F then some "err F" else if !nocallOk c nseq then some "err nan" else
       some ("ok " ++ showList ((List.range (nseq + 1)).map (nocall c nseq F)))
   | ["lp_enough", c, nseq, nsub] => do
       let c ← parseList c; let nseq ← nseq.toNat?; let nsub ← nsub.toNat?
-      if !okCov c then some "err cov" else some ("ok " ++ showRat (probEnough c nseq nsub))
+      if !okCov c then some "err cov" else if !probEnoughOk c nseq nsub then some "err nan"
+      else some ("ok " ++ showRat (probEnough c nseq nsub))
   | ["lp_usesim", thr, pops] => do
       let thr ← parseRat thr
       let pops ← (pops.splitOn ";").mapM parsePop
@@ -115,6 +125,36 @@ def handle (toks : List String) : Option String :=
           | some s => s.2.getD (flatIdx shapeOut j) 0
           | none => 0
         some ("ok " ++ showND (ND.ofFn shapeOut (corrected A thr M.get sim)))
+  | ["lp_projected", pops, model] => do
+      let pops ← (pops.splitOn ";").mapM parsePop
+      let M ← parseND model
+      match pops.findSome? popErr with
+      | some e => some e
+      | none =>
+        let B := refAxesOf pops
+        if M.shape ≠ B.map (·.nIn) then some "err size" else
+        some ("ok " ++ showND (ND.ofFn (B.map (·.nOut)) (projected B M.get)))
+  | ["lp_deepbound", pops] => do
+      let pops ← (pops.splitOn ";").mapM parsePop
+      match pops.findSome? popErr with
+      | some e => some e
+      | none =>
+        let D := deepDepth pops
+        some ("ok " ++ showList [(D : Rat), deepBound pops, deepEps D (maxOf (pops.map (·.nseq))), deepDelta D (maxOf (pops.map (·.nsub)))])
+  | ["lp_projmix0", nseq, nsub] => do
+      let nseq ← nseq.toNat?; let nsub ← nsub.toNat?
+      if nseq % 2 ≠ 0 then some "err odd"
+      else if nsub > nseq then some "err size"
+      else
+        let rows := (List.range (nseq + 1)).map (projMixRow0 nseq nsub)
+        let hyp := (List.range (nseq + 1)).map (projRow nseq nsub 0)
+        let diffs := (rows.zip hyp).flatMap fun rh => (rh.1.zip rh.2).map fun ab => if ab.1 ≥ ab.2 then ab.1 - ab.2 else ab.2 - ab.1
+        let mx := diffs.foldl (fun a b => if a ≥ b then a else b) 0
+        some ("ok " ++ showRows rows ++ "|" ++ showRat mx)
+  | ["lp_defined", c, nseq, nsub] => do
+      let c ← parseList c; let nseq ← nseq.toNat?; let nsub ← nsub.toNat?
+      if !okCov c then some "err cov" else
+      some ("ok " ++ ",".intercalate [b2s (nocallOk c nseq), b2s (hetErrOk c), b2s (probEnoughOk c nseq nsub)])
   | _ => none
 
 end DadiVerif.Driver.LowPass
